@@ -149,7 +149,8 @@ structure G.OK (g : G) : Prop where
   legend : ∀ p, g.legend = some p → qsafeB p.1 = true ∧ ∀ a ∈ p.2, AttrOK a
   nodes : ∀ n ∈ g.nodes, n.OK
   edgeAttrs : ∀ e ∈ g.edges, ∀ a ∈ e.attrs, AttrOK a
-  /-- edges connect nodes of the graph (ComposeDot looks both ends up in its node-id map) -/
+  /-- edges connect nodes of the graph: ComposeDot (repaired, fixes/C18-dot-skip-edges-to-unlisted-nodes.patch)
+  looks both ends up in its node-id map and skips an edge an end of which has no id -/
   edgeEnds : ∀ e ∈ g.edges, e.src < g.nodes.length ∧ e.dst < g.nodes.length
 
 theorem G.stmts_ok (g : G) (hg : g.OK) : ∀ st ∈ g.stmts, StmtOK st := by
